@@ -113,11 +113,11 @@ func runLapackCase(t *vlib.T, lm *lmethod, vals map[string]int) {
 	}
 	sort.Strings(ks)
 	e := &lenv{v: vals}
-	oc := "nonempty:"
 	if lm.isEmptyDims(e) {
-		oc = "empty:"
+		t.Outcome("zero-sized problem: " + strings.Join(ks, "+"))
+	} else {
+		t.Outcome(r.name + ": " + strings.Join(ks, "+"))
 	}
-	t.Outcome(r.name + " " + oc + strings.Join(ks, "+"))
 	if st.kinds["short"] {
 		t.Nontrivial()
 	}
